@@ -14,7 +14,7 @@ Executable, core Lean only.  The model transcribes the Go code branch by branch,
   the builder cache keyed by `var_<addr>` / `ue_var_<path>` and `Builder.Reset`.
 
 Every definition that differs between the repaired and the unrepaired code takes `lg : Bool`:
-`lg = false` is the code with fix F8 (`fixes/F8.diff`) — the theorems of `Props/C08.lean` are about it;
+`lg = false` is the code with fixes F8 (`fixes/F8.diff`) and F27 (`fixes/F27-c08-keep-cancelled-var-mocker.diff`) — the theorems of `Props/C08.lean` are about it;
 `lg = true` is the code as published (origin saved on every `doSet`, unguarded `Cancel`, `Apply` of an
 unexported-variable mocker without `reflect.NewAt`) — `Findings/C08F8.lean` refutes the property for it.
 -/
@@ -182,7 +182,7 @@ inductive Cb
 def cbResult : Cb → Except Panic Boxed
   | .notFunc => .error .notFunc
   | .nilFunc => .error .nilFunc
-  | .takesArgs => .error .fewArgs
+  | .takesArgs => .error .fewArgs      -- non-variadic parameters (a variadic-only callback is accepted by Call(nil): `.ret`)
   | .zeroRets => .error .retCount
   | .twoRets => .error .retCount
   | .panics => .error .cbPanic
@@ -205,7 +205,9 @@ def look (lg : Bool) (s : State) (b : Nat) (ue : Bool) (c : Nat) : State × Outc
     ({ s with mks := upd s.mks s.n m, n := s.n + 1, ret := s.n, pkg := pkg',
               cache := fun b' u' c' => if b' = b ∧ u' = ue ∧ c' = c then some s.n else s.cache b' u' c' }, .ok)
   match s.cache b ue c with
-  | some i => if (s.mks i).canceled then fresh else ({ s with ret := i, pkg := pkg' }, .ok)
+  -- published code (and HEAD before fix F27): a cancelled cached mocker is replaced by a new one;
+  -- with F27 the cached mocker is returned whether cancelled or not (one mocker per builder and variable, for ever)
+  | some i => if lg && (s.mks i).canceled then fresh else ({ s with ret := i, pkg := pkg' }, .ok)
   | none => fresh
 
 /-- builder.go:192 `Reset`: `Cancel` every cached mocker, in the order `ord` the map iteration happens to produce;
